@@ -275,6 +275,40 @@ func Run(r *fw.Run) {
 		r.Merge(l)
 	}
 
+	// dense length sweep: a name, and a content, of every length from 0 to enum.DenseMax bytes
+	{
+		var mu2 sync.Mutex
+		var todo []string
+		enum.EachLength('n', enum.DenseMax, func(s string) { todo = append(todo, s) })
+		r.Bounds["dense_length_sweep"] = fmt.Sprintf("name and content of every length 0..%d", enum.DenseMax)
+		fw.Parallel(16, func(sh int) {
+			l := fw.NewLocal()
+			defer r.Merge(l)
+			for i := sh; i < len(todo); i += 16 {
+				for _, cs := range []struct{ set, ct []string }{
+					{[]string{"d/" + todo[i]}, []string{"x\n"}},
+					{[]string{"b", todo[i] + ".go", "a/z"}, []string{"1", "2", "3"}},
+					{[]string{"f", "g"}, []string{todo[i], "y"}},
+				} {
+					l.States++
+					l.Execs++
+					l.Transitions++
+					msg, h := setCase(cs.set, cs.ct)
+					if msg != "" {
+						mu2.Lock()
+						r.Violation(fmt.Sprintf("set:dense:%d:%d", len(cs.set), len(todo[i])), msg, mkCase("set", cs.set, cs.ct))
+						mu2.Unlock()
+						continue
+					}
+					if h != "" {
+						l.Nontrivial++
+						l.Outcomes["hashed"]++
+					}
+				}
+			}
+		})
+	}
+
 	// resources: an opener that allows only two handles to be open at once and counts them. Large file sets
 	// (40, 300, 3000 files) must hash to the formula, every handle must be closed by the time Hash1 returns,
 	// and a set of n files needs no more simultaneously open handles than a set of 3
@@ -567,11 +601,13 @@ type yieldFirstRead struct {
 }
 
 func (y *yieldFirstRead) Read(p []byte) (int, error) {
+	n, err := y.ReadCloser.Read(p)
 	if !y.did {
+		// the buffer now holds this file's bytes and the caller has not looked at them yet
 		y.did = true
 		y.yield()
 	}
-	return y.ReadCloser.Read(p)
+	return n, err
 }
 
 // overlapCall runs menu entry i with an opener that lets the other call run before each open and before
